@@ -269,7 +269,7 @@ pub fn exec(a: &Args) -> i32 {
                                     Ok(v) => v,
                                     Err(e) => return format!("err:{}", err_name(&e)),
                                 };
-                                items.push(format!("{}={}", hex(&k), hex(&v)));
+                                items.push(format!("{}={}", hex(&k), render_val(&v)));
                                 ok = if fwd { it.next() } else { it.prev() };
                                 if items.len() > 100 {
                                     return "err:runaway".into();
